@@ -65,7 +65,8 @@ func bigRegistry(rng *rand.Rand, n int, emit core.Emit) {
 		if i%50 == 7 {
 			st = 1 // new: matched by few filters
 		}
-		items = append(items, fmt.Sprintf("add|%s/10481/%d/0/%d|refuse", a, st, epoch-int64(i%5)*256000))
+		// every record carries 1–3 players (a fetch that decodes into reused memory mixes up neighbours' lists)
+		items = append(items, fmt.Sprintf("add|%s/10481/%d/0/%d/p%d|refuse", a, st, epoch-int64(i%5)*256000, 1+(i*7)%3))
 	}
 	items = append(items, "count", "countby", "filter|0|0|z|z|z|z", "filter|2|0|z|z|z|z", "filter|6|0|z|z|z|z", "filter|8|0|z|z|z|z", "filter|0|8|z|z|z|z", "filter|1|0|z|z|z|z",
 		fmt.Sprintf("filter|2|0|%d|z|z|z", epoch-2*256000), fmt.Sprintf("filter|0|0|z|%d|z|z", epoch-2*256000))
@@ -153,7 +154,11 @@ func gen(rng *rand.Rand, tier core.Tier, emit core.Emit) {
 					times = append(times, t)
 				}
 				res := []string{"refuse", "accept", "merge", "over"}[rng.Intn(4)]
-				items = append(items, fmt.Sprintf("%s|%s/%d/%d/%d/%s|%s", kind, a, 10000+rng.Intn(5), rng.Intn(512), v, refreshed, res))
+				players := ""
+				if rng.Intn(3) == 0 {
+					players = fmt.Sprintf("/p%d", rng.Intn(4))
+				}
+				items = append(items, fmt.Sprintf("%s|%s/%d/%d/%d/%s%s|%s", kind, a, 10000+rng.Intn(5), rng.Intn(512), v, refreshed, players, res))
 				vers[a] += 1 // rough upper estimate, only steers the choice of caller versions
 			case r < 11:
 				items = append(items, "get|"+a)
